@@ -195,6 +195,11 @@ def _make_sw(sw, coords, dens, refpot):
 
 
 def clauses(tier, seed):
+  from contracts import implicit_contracts
+  return _numeric_clauses(tier, seed) + implicit_contracts.clauses()
+
+
+def _numeric_clauses(tier, seed):
   fns = [PE + 'PrimitiveEquations.implicit_terms', PE + 'PrimitiveEquations.implicit_inverse', PE + '_get_implicit_term_matrix',
          PE + 'get_geopotential_weights', PE + 'get_geopotential_diff', PE + 'get_temperature_implicit_weights',
          PE + 'get_temperature_implicit', PE + '_vertical_matvec', PE + '_vertical_matvec_per_wavenumber', PE + 'get_sigma_ratios']
@@ -243,8 +248,8 @@ def replay_primitive(w):
 
 
 MANIFEST = {
-    'engine': 'jxa',
-    'technique': 'contract-based: linearity and pass-through proved on the traced program; resolvent / method-agreement / dense-vs-cumsum identities as matrix identities on the complete state basis (bounded over level sets, profiles, step sizes)',
+    'engine': 'pyvc+jxa',
+    'technique': 'contract-based deductive: shallow-water resolvent (both sides, both signs of eta), linearity and TimeReversedImExODE proved from the real source (pyvc, z3 NRA); linearity and pass-through proved on the traced program; resolvent / method-agreement / dense-vs-cumsum identities as matrix identities on the complete state basis (bounded over level sets, profiles, step sizes)',
     'text': ('other: complete over states (linearity proved per configuration from the jaxpr, then matrices on the full state basis), '
              'bounded over the enumerated vertical discretisations, reference profiles, step sizes of both signs, grids and methods.'),
     'note': 'trusted: np.linalg.inv as used by the code; A1/A2; jxa rules. The SMT elementwise proof for shallow water planned in DESIGN is not built; shallow water is covered numerically.',
